@@ -251,7 +251,10 @@ func scriptCaseRoute(c *Ctx, fam *report.Family, f string, configured [][2]strin
 	}
 	dec, err := DecodePkg(f, data)
 	if err != nil {
-		c.Rep.Note("decode %s: %v", f, err)
+		// the scripts travel in the package's control data: a package whose control data an independent reader cannot
+		// read to the end does not deliver them
+		c.Rep.Find(report.Finding{Property: "C09", Family: "scripts", Shape: f + ":scripts-unreadable:" + label,
+			What: "the package built with these scripts cannot be read back (the member that carries a script is cut short or malformed): " + err.Error(), Input: in})
 		return
 	}
 	obs, modes := observedSlots(dec)
